@@ -109,6 +109,17 @@ impl Report {
                                     None => crate::wire::l1(x),
                                 }
                             }
+                            7 => {
+                                // outcome class only: a value ("ok") or a failure ("E")
+                                let head = x.split(' ').next().unwrap_or("");
+                                if head == "ok" || head == "E" {
+                                    head.to_string()
+                                } else if head.starts_with("e:") {
+                                    "E".to_string()
+                                } else {
+                                    "ok".to_string()
+                                }
+                            }
                             5 => {
                                 // AST: syntax errors compare by class, trees as JSON values
                                 if x.starts_with('E') {
